@@ -175,3 +175,34 @@ func Gcd(a, b int) int {
 	}
 	return a
 }
+
+type Obj struct {
+	Name  string
+	Valid bool
+	Tags  map[string]string
+}
+
+// Filter keeps the valid objects, like GetIngressList.
+func Filter(all []Obj) []*Obj {
+	items := make([]*Obj, len(all))
+	var i int
+	for j := range all {
+		o := &all[j]
+		if o.Valid {
+			items[i] = o
+			i++
+		}
+	}
+	return items[:i]
+}
+
+// Collect appends names of valid objects.
+func Collect(all []*Obj) []string {
+	var out []string
+	for _, o := range all {
+		if o.Valid {
+			out = append(out, o.Name)
+		}
+	}
+	return out
+}
